@@ -47,7 +47,7 @@ func (c c29Case) key() string {
 	return c.Start + "/" + g + ":" + strings.Join(c.Events, ",")
 }
 
-var c29Events = []string{"pause", "resume", "flushW", "flushN", "reset", "terminate", "restart", "edit", "adv2s", "arm", "release"}
+var c29Events = []string{"pause", "resume", "flushW", "flushN", "reset", "terminate", "restart", "edit", "adv2s", "arm", "release", "down", "up"}
 
 type c29Verdict struct {
 	Infra      string
@@ -80,6 +80,8 @@ type c29Sess struct {
 	resets     []*c29Reset
 	terminated bool // a Terminate call has returned nil
 	armed      bool // the "arm" event has been used
+	down       bool // beta is unreachable ("down" without a later "up")
+	flaps      int  // "down" events used
 }
 
 func (s *c29Sess) obs(format string, args ...any) {
@@ -122,6 +124,15 @@ func (s *c29Sess) enabled() []string {
 				continue
 			}
 		case "edit", "adv2s":
+		case "down":
+			// At most one outage per history, starting at any point.
+			if s.down || s.flaps >= 1 {
+				continue
+			}
+		case "up":
+			if !s.down {
+				continue
+			}
 		case "restart":
 			if lockHeld || npend >= 2 {
 				continue
@@ -173,10 +184,18 @@ func (s *c29Sess) do(ev string) {
 		w.call("terminate", func() error { return m.Terminate(bg, sel, "") })
 	case "restart":
 		w.call("restart", func() error {
+			all := &selection.Selection{All: true}
+			_, before, errBefore := m.List(bg, all, 0)
 			m.Shutdown()
 			nm, err := synchronization.NewManager(nil)
 			if err != nil {
 				return err
+			}
+			if _, after, errAfter := nm.List(bg, all, 0); errBefore == nil && errAfter == nil && len(before) == 1 && len(after) == 1 &&
+				before[0].Session.Paused != after[0].Session.Paused {
+				w.mu.Lock()
+				w.restartPaused = fmt.Sprintf("the manager listed paused=%v before Shutdown and the restarted manager lists paused=%v", before[0].Session.Paused, after[0].Session.Paused)
+				w.mu.Unlock()
 			}
 			w.mu.Lock()
 			w.mgr = nm
@@ -190,6 +209,14 @@ func (s *c29Sess) do(ev string) {
 		w.st.stamp(p)
 	case "adv2s":
 		time.Sleep(2 * time.Second)
+	case "down", "up":
+		s.down = ev == "down"
+		if s.down {
+			s.flaps++
+		}
+		w.mu.Lock()
+		w.betaDown = s.down
+		w.mu.Unlock()
 	case "release":
 		w.releaseGates()
 	case "arm":
@@ -427,6 +454,13 @@ func (s *c29Sess) check() {
 		if _, st, err := m.List(context.Background(), &selection.Selection{All: true}, 0); err == nil {
 			states, listed = st, true
 		}
+	}
+	w.mu.Lock()
+	changed := w.restartPaused
+	w.mu.Unlock()
+	if changed != "" {
+		// Clause 2 in both directions: a restart neither loses nor invents a pause.
+		s.violate("paused-state-changed-by-restart", changed)
 	}
 	if listed {
 		// Clause 2: "its paused state survives a daemon restart" - whenever the
